@@ -245,10 +245,9 @@ class HealthShadow:
         if visible is not None:
             self.V[key] = visible
 
-    def sync(self, universe):
+    def sync(self, universe, place="tick"):
         """quiescent point: real values by path vs the model. universe: key -> (actual name, visible name)"""
         self.cov.inc("sync_evals")
-        place = self.op[0] if self.op is not None else "tick"
         for key, (a, v) in universe.items():
             kind = key[0]
             if key not in self.V or key not in self.A:
